@@ -324,9 +324,9 @@ func genC05(g *G, n int, out io.Writer) {
 			propPool = []string{"p0", g.pick([]string{"data", "core", "doc", "meta"}), g.pick([]string{"shacl", "apiContract", "type", "id"}), "p3"}
 		}
 		gr := g.graph(2+g.n(6), 0.55)
-		if i%12 == 7 {
+		if i%20 == 7 {
 			// several hundred nodes (sparse links): what a serialisation does to a graph does not depend on how big the graph is
-			gr = g.graph(258+g.n(90), 0.008)
+			gr = g.graph(258+g.n(40), 0.008)
 		}
 		if i%4 == 2 {
 			// nodes that are instances of many classes (the classes a profile targets can stand anywhere in the list)
